@@ -530,7 +530,7 @@ func doGen() {
 			_, seg, _ := capnp.NewMessage(capnp.SingleSegment(nil))
 			s, _ := t.mk(seg)
 			okd := sn.DataWordCount() == 0 || int(s.Size().DataSize) >= int(sn.DataWordCount())*8
-			okp := sn.PointerCount() == 0 || s.SetPtr(int(sn.PointerCount())-1, capnp.Ptr{}) == nil
+			okp := sn.PointerCount() == 0 || s.SetPtr(sn.PointerCount()-1, capnp.Ptr{}) == nil
 			emit(J{"k": "name", "who": "gen", "type": t.name, "ok": okd && okp, "what": "last data word / pointer slot of the declared sections is addressable"})
 			continue
 		}
